@@ -29,6 +29,14 @@
 //     every collection received before (so no window is emitted twice), and contains exactly the
 //     ledger sums, per key, of the retained buckets in [StartTime, EndTime) at the moment of emission
 //     (no accepted flow of the window left out, nothing counted that is not in the window);
+//   - steady-sink ring cases (half of the ring cases: small ring of pushAfter+aggregate+3..+6 buckets,
+//     sink attached on EVERY rollover, quiet / steady / mixed traffic phases over several laps of the
+//     ring, final drain of pushAfter+aggregate+2 rollovers without new flows): every flow that was
+//     accepted while its bucket was still ahead of the emission point must be covered by a collection
+//     received after its acceptance (end-to-end sink conservation; together with the per-collection
+//     and disjointness checks: exactly once).  Flows accepted later than that, or in cases where
+//     some rollover ran without the sink, are not entitled: the unchanged code can legitimately leave
+//     such buckets out (the walk stops at the first already-pushed window start).
 //   - goldmane cases: after a quiescence barrier, List over the fed range equals the sum of everything
 //     fed (every flow counted exactly once despite concurrency); emitted windows pairwise disjoint;
 //     after enough sequential rollovers with a sink attached, the sum of everything emitted equals the
@@ -374,6 +382,17 @@ type ringCase struct {
 	checked  int // collections already validated
 	now      int64
 	emittedB map[int64]bool // bucket starts covered by an emission
+	steady   bool           // sink attached on every rollover; end-to-end sink conservation is judged
+	entitled []entitledFlow
+}
+
+// entitledFlow is a flow that was accepted while its bucket was still ahead of the emission point
+// (bucket start >= start of the bucket pushAfter behind "now"), in a case where every rollover has the
+// sink attached: it must reach the sink in exactly one collection.
+type entitledFlow struct {
+	bucket int64
+	key    int
+	op     int
 }
 
 func (rc *ringCase) op(f string, a ...any) {
@@ -589,6 +608,10 @@ func runRing(c *harness.Case) {
 	rc.P = r.Intn(5)
 	rc.A = 1 + r.Intn(4)
 	rc.n = rc.P + rc.A + 3 + r.Intn(c.Pick(8, 20))
+	rc.steady = r.Intn(2) == 0
+	if rc.steady {
+		rc.n = rc.P + rc.A + 3 + r.Intn(4) // small ring: laps are cheap
+	}
 	nKeys := 1 + r.Intn(c.Pick(8, 16))
 	rc.keys = genKeys(r, nKeys)
 	for _, k := range rc.keys {
@@ -653,15 +676,80 @@ func runRing(c *harness.Case) {
 		return true
 	}
 
+	doRollover := func(withSink bool) bool {
+		begin, end := rc.ring.BeginningOfHistory(), rc.ring.EndOfHistory()
+		rc.now += rc.interval
+		rc.op("Rollover sink=%v", withSink)
+		if withSink {
+			if rc.guarded(func() { rc.ring.Rollover(rc.sink) }) {
+				rc.runaway("Rollover(sink)")
+				return false
+			}
+		} else {
+			rc.ring.Rollover(nil)
+		}
+		c.Count("rollovers", 1)
+		nb := rc.ring.BeginningOfHistory()
+		if nb != begin+rc.interval || rc.ring.EndOfHistory() != end+rc.interval {
+			c.Violationf("rollover-window", rc.witness(nil), "Rollover moved history from [%d,%d) to [%d,%d)", begin, end, nb, rc.ring.EndOfHistory())
+			return false
+		}
+		dropped := rc.led.trim(nb)
+		c.Count("ledger_entries_expired", int64(dropped))
+		for b := range pstats {
+			if b < nb {
+				delete(pstats, b)
+			}
+		}
+		for b := range rc.emittedB {
+			if b < nb {
+				delete(rc.emittedB, b)
+			}
+		}
+		rc.checkEmissions()
+		return verifyState("Rollover")
+	}
+
 	nOps := c.Pick(80, 160)
+	if rc.steady {
+		nOps = c.Pick(60, 120) + rc.n*c.Pick(8, 14) // several laps of the (small) ring
+	}
+	phase, phaseLeft := 0, 0
 	for i := 0; i < nOps && !c.Failed(); i++ {
 		begin, end := rc.ring.BeginningOfHistory(), rc.ring.EndOfHistory()
-		switch x := r.Intn(20); {
+		x, y := r.Intn(20), r.Intn(12)
+		if rc.steady {
+			// traffic phases: quiet (rollovers only), steady (one flow into the filling bucket per
+			// rollover), mixed (the general operation mix, rollover-heavy)
+			if phaseLeft == 0 {
+				phase, phaseLeft = r.Intn(3), 2+r.Intn(2*rc.n)
+			}
+			phaseLeft--
+			switch phase {
+			case 0:
+				if x%4 == 0 {
+					x = 15 + x%5 // a query
+				} else {
+					x = 9
+				}
+			case 1:
+				if i%2 == 0 {
+					x, y = 0, 0
+				} else {
+					x = 9
+				}
+			default:
+				if x%3 == 0 {
+					x = 9
+				}
+			}
+		}
+		switch {
 		case x < 9: // AddFlow
 			k := rc.keys[r.Intn(nKeys)]
 			var start int64
 			kind := ""
-			switch y := r.Intn(12); {
+			switch {
 			case y < 4: // the currently filling bucket
 				start = end - 2*rc.interval + int64(r.Intn(int(rc.interval)))
 				kind = "now"
@@ -683,8 +771,8 @@ func runRing(c *harness.Case) {
 			default: // a bucket whose window was already emitted, if any
 				start = begin + int64(r.Intn(int(end-begin)))
 				kind = "in-window"
-				for b := range rc.emittedB {
-					if b >= begin {
+				for b := begin; b < end; b += rc.interval { // oldest retained emitted bucket (deterministic)
+					if rc.emittedB[b] {
 						start = b
 						kind = "into-emitted"
 						break
@@ -713,6 +801,9 @@ func runRing(c *harness.Case) {
 				if rc.emittedB[b] {
 					c.Count("flows_accepted_into_emitted_bucket", 1)
 				}
+				if rc.steady && b >= end-rc.interval*int64(2+rc.P) {
+					rc.entitled = append(rc.entitled, entitledFlow{bucket: b, key: k.idx, op: len(rc.ops) - 1})
+				}
 			default:
 				want := rc.ledgerView(b, k.idx, &fc)
 				c.Violationf("addflow-not-conserved", rc.witness(map[string]any{"diff_vs_accepted": viewDiff(got, want), "diff_vs_rejected": viewDiff(got, rc.ledgerView(0, 0, nil))}),
@@ -720,37 +811,7 @@ func runRing(c *harness.Case) {
 				return
 			}
 		case x < 13: // Rollover
-			withSink := r.Intn(2) == 0
-			rc.now += rc.interval
-			rc.op("Rollover sink=%v", withSink)
-			if withSink {
-				if rc.guarded(func() { rc.ring.Rollover(rc.sink) }) {
-					rc.runaway("Rollover(sink)")
-					return
-				}
-			} else {
-				rc.ring.Rollover(nil)
-			}
-			c.Count("rollovers", 1)
-			nb := rc.ring.BeginningOfHistory()
-			if nb != begin+rc.interval || rc.ring.EndOfHistory() != end+rc.interval {
-				c.Violationf("rollover-window", rc.witness(nil), "Rollover moved history from [%d,%d) to [%d,%d)", begin, end, nb, rc.ring.EndOfHistory())
-				return
-			}
-			dropped := rc.led.trim(nb)
-			c.Count("ledger_entries_expired", int64(dropped))
-			for b := range pstats {
-				if b < nb {
-					delete(pstats, b)
-				}
-			}
-			for b := range rc.emittedB {
-				if b < nb {
-					delete(rc.emittedB, b)
-				}
-			}
-			rc.checkEmissions()
-			if !verifyState("Rollover") {
+			if !doRollover(rc.steady || r.Intn(2) == 0) {
 				return
 			}
 		case x < 15: // EmitFlowCollections
@@ -932,6 +993,45 @@ func runRing(c *harness.Case) {
 	}
 	if c.Failed() {
 		return
+	}
+	// steady-sink cases: drain (no new flows) until every entitled flow's bucket is at least a whole
+	// aggregation window behind the emission point, then every entitled flow must have been handed to
+	// the sink in a collection received after the flow was accepted.  Collections are individually
+	// checked against the ledger and against each other (disjoint), so coverage means "exactly once".
+	if rc.steady {
+		for i := 0; i < rc.P+rc.A+2; i++ {
+			if !doRollover(true) {
+				return
+			}
+		}
+		var lost []string
+		for _, e := range rc.entitled {
+			covered := false
+			for _, w := range rc.seenWin {
+				if w.start <= e.bucket && e.bucket < w.end && w.op > e.op {
+					covered = true
+					break
+				}
+			}
+			c.Count("entitled_flows_checked", 1)
+			if !covered {
+				lost = append(lost, fmt.Sprintf("key %d bucket %d accepted at op %d", e.key, e.bucket, e.op))
+			}
+		}
+		if len(lost) > 0 {
+			var wins [][]int64
+			for _, w := range rc.seenWin {
+				wins = append(wins, []int64{w.start, w.end, int64(w.op)})
+			}
+			n := len(lost)
+			if n > 10 {
+				lost = lost[:10]
+			}
+			c.Violationf("accepted-flow-never-emitted", rc.witness(map[string]any{"lost": lost, "windows_start_end_op": wins}),
+				"sink attached on every rollover, ring drained: %d flow(s) accepted ahead of the emission point were never handed to the sink: %v", n, lost)
+			return
+		}
+		c.Count("steady_sink_cases", 1)
 	}
 	// final: catch up emission and verify everything once more
 	rc.op("EmitFlowCollections (final)")
@@ -1247,6 +1347,6 @@ func main() {
 		CaseTimeout: 120 * time.Second,
 		Floors: map[string]int64{"flows_accepted": 5000, "flows_rejected": 500, "rollovers": 3000, "collections_emitted": 500, "emitted_flows_compared": 500,
 			"range_queries_exact": 1000, "statistics_queries": 1000, "flowset_queries": 500, "bucket_readbacks": 50000,
-			"gm_conservation_checks": 20, "gm_emission_total_checks": 20, "flows_accepted_into_emitted_bucket": 20, "emit_walk_steps_observed": 2000},
+			"entitled_flows_checked": 3000, "steady_sink_cases": 100, "gm_conservation_checks": 20, "gm_emission_total_checks": 20, "flows_accepted_into_emitted_bucket": 20, "emit_walk_steps_observed": 2000},
 	})
 }
